@@ -801,7 +801,22 @@ class SymEval:
 
     def e_JoinedStr(self, n, p):
         if not self.text_mode:
-            return norm(n)
+            # concrete when every interpolated value is (a plain str / int / model object that formats itself); the source text otherwise (messages)
+            out = []
+            try:
+                for v in n.values:
+                    if isinstance(v, ast.Constant):
+                        out.append(str(v.value))
+                        continue
+                    if v.format_spec is not None or v.conversion != -1:
+                        return norm(n)
+                    x = self.ev(v.value, p)
+                    if isinstance(x, bool) or not (isinstance(x, (str, int, sp.Integer)) or (isinstance(x, PyStub) and '__format__' in type(x).__dict__)):
+                        return norm(n)
+                    out.append(format(x) if isinstance(x, PyStub) else str(x))
+            except (Opaque, WouldRaise, _PyRaise):
+                return norm(n)
+            return ''.join(out)
         pieces = []
         for v in n.values:
             if isinstance(v, ast.Constant):
@@ -870,6 +885,13 @@ class SymEval:
                 if any(norm(d) == 'property' for d in fn.decorator_list):
                     return self.call_fn(fn, [base], {}, p)
                 return Closure(fn, self, base)
+            if self.try_depth > 0 and base.cls is not None and attr.startswith('__') and not attr.endswith('__'):
+                # a private attribute that only the function being evaluated ever assigns: absent until that assignment ran (AttributeError, as in Python)
+                writers = {f.name for f in base.cls.body if isinstance(f, ast.FunctionDef) for t in ast.walk(f)
+                           if isinstance(t, ast.Attribute) and isinstance(t.ctx, ast.Store) and t.attr == attr and isinstance(t.value, ast.Name) and t.value.id == 'self'}
+                cur = self.fn_stack[-1].name if self.fn_stack else None
+                if writers and writers <= {cur}:
+                    raise _PyRaise('AttributeError', AttributeError(attr))
             raise Opaque('attribute %s.%s unknown' % (base.name, attr))
         if is_arr(base):
             if attr == 'T':
